@@ -276,11 +276,11 @@ func (s *syncCase) diffSides() (class, what string, err error) {
 func runC02(tier string, _ []string) int {
 	c := vlib.NewCtx("C02", tier, "exploration")
 	vlib.SetPortBlock(2)
-	c.SetRule("per scenario a downstream instance (real Sync client, period 1 s) linked to a bare upstream instance; a PRNG history of 6-25 acknowledged steps over {node-point write, edge-point write, create node, delete, undelete} x {downstream, upstream} x nodes inside the device subtree (nested groups), interleaved with link loss (sync node disabled), recovery, upstream restarts on the same file (also in two steps: the bus first, the store later, so that the downstream's reconnect and first catch-up attempt find a bus nobody answers on) restarts of the downstream instance itself, and writes placed *inside* a catch-up pass (performed from the sync.afterLocalFetch / afterRemoteFetch / beforeChildren hook sites in the sync client's own goroutine, aimed at the node the pass is comparing), always followed by a fixed list of corner scenarios (both sides write one identity during an outage; create upstream / downstream during an outage; delete downstream / upstream during an outage; delete + undelete; nested create under a node created during the outage; an identity rewritten with its old content and a newer time after the other side wrote another value; the device node itself mirrored into a group of the upstream and taken out again before an outage). After the last write the link is up; catch-up passes are counted passively (nodes.all.<device> requests on the downstream bus) and after each pass both device subtrees are walked (deleted included) and compared: placements, newest point per identity of every node and edge. Convergence is demanded within 10 passes and must then hold on two consecutive walks; the agreed value of every identity the harness wrote must be at least as new as the newest acknowledged write on either side, and anything newer must have been seen on a bus. distinct = (set of operation kinds performed during outages, passes needed)")
+	c.SetRule("per scenario a downstream instance (real Sync client, period 1 s) linked to a bare upstream instance; a PRNG history of 6-25 acknowledged steps over {node-point write, edge-point write, create node, delete, undelete} x {downstream, upstream} x nodes inside the device subtree (nested groups), interleaved with link loss (sync node disabled), recovery, upstream restarts on the same file (also in two steps: the bus first, the store later, so that the downstream's reconnect and first catch-up attempt find a bus nobody answers on; and once with the upstream running on other ports for a while, out of the downstream's reach with the link still enabled, accepting writes there - that scenario ends without further steps, so that the downstream has no change of its own as a reason to compare), restarts of the downstream instance itself, and writes placed *inside* a catch-up pass (performed from the sync.afterLocalFetch / afterRemoteFetch / beforeChildren hook sites in the sync client's own goroutine, aimed at the node the pass is comparing), always followed by a fixed list of corner scenarios (both sides write one identity during an outage; create upstream / downstream during an outage; delete downstream / upstream during an outage; delete + undelete; nested create under a node created during the outage; an identity rewritten with its old content and a newer time after the other side wrote another value; the device node itself mirrored into a group of the upstream and taken out again before an outage). After the last write the link is up; catch-up passes are counted passively (nodes.all.<device> requests on the downstream bus) and after each pass both device subtrees are walked (deleted included) and compared: placements, newest point per identity of every node and edge. Convergence is demanded within 10 passes and must then hold on two consecutive walks; the agreed value of every identity the harness wrote must be at least as new as the newest acknowledged write on either side, and anything newer must have been seen on a bus. distinct = (set of operation kinds performed during outages, passes needed)")
 	c.Assume("the device's own top edge upstream is not compared (deliberately not synchronised); origins are not compared (whole-node transfer stamps the sync node as origin); binary data and tombstone counts are; equal timestamps on one identity are not generated")
-	nScen := c.N(20, 160)
+	nScen := c.N(21, 160)
 	wd := c.NewWatchdog()
-	corners := []string{"both-write-same-identity", "create-upstream", "create-downstream", "delete-downstream", "delete-upstream", "delete-undelete-downstream", "nested-create-downstream", "nested-create-upstream", "upstream-restart", "mid-pass", "upstream-restart-store-late", "edge-point-upstream", "downstream-restart", "glued-identities", "glued-identities", "late-delivery", "late-delivery", "same-content-rewritten", "device-mirrored-upstream", "random"}
+	corners := []string{"both-write-same-identity", "create-upstream", "create-downstream", "delete-downstream", "delete-upstream", "delete-undelete-downstream", "nested-create-downstream", "nested-create-upstream", "upstream-restart", "mid-pass", "upstream-restart-store-late", "edge-point-upstream", "downstream-restart", "glued-identities", "glued-identities", "late-delivery", "late-delivery", "same-content-rewritten", "device-mirrored-upstream", "upstream-away", "random"}
 	vlib.Parallel(nScen, 4, func(i int) {
 		r := vlib.NewR(c.Seed, "c02", i)
 		s := &syncCase{c: c, wd: wd, i: i, r: r, clock: 1750000000e9, tapped: map[string]bool{}, outage: map[string]bool{}, history: map[string]bool{}}
@@ -548,6 +548,27 @@ func runC02(tier string, _ []string) int {
 				s.waitPasses(2, "catch-up after the downstream restart")
 			}
 			return nil
+		}
+		// the upstream runs for a while where the downstream cannot reach it (same file, other ports) and
+		// accepts writes there: an outage that is not a configured one - the link stays enabled, the
+		// connection drops, and what the upstream accepted meanwhile has to come down by catch-up
+		restartUAway := func() error {
+			mark("upstream-away")
+			s.note("RESTART upstream on other ports (out of the downstream's reach)")
+			var away [4]int
+			for k := range away {
+				away[k], _ = vlib.FreePort() // taken while the usual ports are still held, so they differ
+			}
+			stopU()
+			nu, err := vlib.StartInstance(vlib.InstCfg{StoreFile: s.uFile, Ports: away})
+			if err != nil {
+				return fmt.Errorf("%w: upstream does not restart on other ports: %v", vlib.ErrInfra, err)
+			}
+			s.U = nu
+			if s.ncU, err = s.U.Connect(); err != nil {
+				return err
+			}
+			return s.tap("U", s.ncU)
 		}
 		restartU := func() error {
 			mark("upstream-restart")
@@ -834,10 +855,22 @@ func runC02(tier string, _ []string) int {
 				step(nodeWrite("D", v1))
 				step(restartU())
 				step(nodeWrite("D", v2))
+			case "upstream-away":
+				// (nothing is written downstream in between: the downstream has no reason of its own to look)
+				step(restartUAway())
+				step(nodeWrite("U", v1))
+				step(nodeWrite("U", v2))
+				step(edgeWrite("U", v1))
+				step(restartU())
 			}
 		}
 		// random tail
 		nSteps := 6 + r.Intn(c.N(10, 20))
+		if corner == "upstream-away" {
+			// judged as it stands: a later write on the downstream side would give the downstream a reason
+			// of its own to compare the two sides, and what matters here is that it looks without one
+			nSteps = 0
+		}
 		for k := 0; k < nSteps && scErr == nil; k++ {
 			side := []string{"D", "U"}[r.Intn(2)]
 			n := pick(side)
